@@ -45,8 +45,15 @@ def gen(rng, scenario, tier):
         bs, drifts = workload.batches(rng, nb + 1, d, 8, 40, drift_rate=rng.choice([0.3, 0.5]))
         ev.append(["ref", bs[0], np_seed(rng)])
         inject = rng.random() < 0.6
+        last_ref = bs[0]
         for b in bs[1:]:
-            ev.append(["ref" if (inject and rng.random() < 0.12) else "u", b, np_seed(rng)])
+            if inject and rng.random() < 0.12:
+                if rng.random() < 0.35:
+                    b = [list(r) for r in last_ref]      # set_reference with the SAME rows as the last explicit reference: still a new start
+                last_ref = b
+                ev.append(["ref", b, np_seed(rng)])
+            else:
+                ev.append(["u", b, np_seed(rng)])
     else:
         n = rng.randint(80, 400)
         if k == "x":
